@@ -100,6 +100,12 @@ fn load(chain: &[&Vec<u8>]) -> Result<LedgerNode, String> {
 
 impl Forest {
     pub fn build(n: usize) -> Result<Forest, String> {
+        let all: Vec<usize> = (0..n).collect();
+        Self::build_sparse(n, &all)
+    }
+
+    /// trunk of `n` blocks, branches only at the given fork points (other branches stay empty)
+    pub fn build_sparse(n: usize, fork_points: &[usize]) -> Result<Forest, String> {
         let g = genesis_bytes(1_000_000);
         let mut node = load(&[&g])?;
         let mut trunk = vec![g];
@@ -110,6 +116,9 @@ impl Forest {
         let ps: Vec<usize> = (0..n).collect();
         let res = par_map(&ps, workers(), |_, &p| -> Result<Vec<Vec<u8>>, String> {
             let mut out = vec![];
+            if !fork_points.contains(&p) {
+                return Ok(out);
+            }
             let mut node = if p == 0 {
                 let g2 = genesis_bytes(1_000_777);
                 let nd = load(&[&g2])?;
@@ -180,7 +189,7 @@ fn grid(f: &Forest, rep: &mut Report) {
         let mut out = vec![];
         let pre: Vec<&Vec<u8>> = f.trunk[..p].iter().collect();
         let mut node = load(&pre)?;
-        for a in 0..=(n - p) {
+        for a in 0..=f.branch[p].len() {
             if a > 0 {
                 match node.add_block_bytes(&f.branch[p][a - 1]) {
                     Outcome::Done(AddRes::AddedLongest) => {}
@@ -223,7 +232,7 @@ fn grid(f: &Forest, rep: &mut Report) {
                 return r;
             }
         };
-        for b in 0..=(n - q) {
+        for b in 0..=f.branch[q].len() {
             if b > 0 {
                 if !matches!(node.add_block_bytes(&f.branch[q][b - 1]), Outcome::Done(AddRes::AddedLongest)) {
                     r.machinery(format!("server replay q={} b={}", q, b));
@@ -274,12 +283,12 @@ fn grid(f: &Forest, rep: &mut Report) {
                 let case = json!({"requester": {"fork_after": rq.p, "branch_len": rq.a, "latest": rq.latest}, "server": {"fork_after": q, "branch_len": b, "latest": my_latest}, "estimate": est, "true_fork_point": truth});
                 match collision {
                     Some((slot, h_req)) => r.violate(
-                        &format!("estimate-too-late/two-byte-collision/req({},{})/srv({},{})", rq.p, rq.a, q, b),
+                        &format!("estimate-too-late/two-byte-collision/server-block-{}-of-branch-{}/slot-{}", est, if est as usize <= q { "trunk".to_string() } else { q.to_string() }, slot),
                         format!("estimate {} > true fork point {}: the server's block {} and the requester's block {} are different blocks that agree in bytes {}..{} of their hashes (slot {} of the fork id)", est, truth, est, h_req, 2 * slot, 2 * slot + 1, slot),
                         case,
                     ),
                     None => r.violate(
-                        &format!("estimate-too-late/{}/req({},{})/srv({},{})", branch, rq.p, rq.a, q, b),
+                        &format!("estimate-too-late/{}/requester-length-{}", branch, rq.latest),
                         format!("estimate {} > true fork point {} (requester latest {}, server latest {})", est, truth, rq.latest, my_latest),
                         case,
                     ),
@@ -609,16 +618,21 @@ fn explore(f: &Forest, ca: (usize, usize), cb: (usize, usize), block_of: &BTreeM
 
 pub fn main(tier: Tier, replay_file: Option<String>) -> i32 {
     let mut rep = Report::new("C15", tier.clone(), "model_checking");
-    let n = if replay_file.is_some() { 12 } else if tier.thorough { 120 } else { 40 };
+    let n = if replay_file.is_some() { 12 } else { 120 };
+    // quick: every chain length up to 120 (all fork-id checkpoints up to 100), forks at a
+    // selection of points around them; thorough: every fork point
+    let quick_forks: Vec<usize> = vec![0, 1, 2, 3, 4, 5, 6, 7, 8, 9, 10, 11, 12, 15, 17, 18, 19, 20, 21, 25, 27, 29, 30, 31, 39, 40, 41, 49, 50, 51, 60, 74, 75, 76, 99, 100, 101, 110];
     rep.bounds = json!({
         "grid_trunk_length": n,
+        "grid_fork_points": if tier.thorough { json!("all") } else { json!(quick_forks) },
         "grid": "every ordered pair of chains trunk[..p]+branch_p[..a], p+a<=N",
         "schedule_worlds": "prefix 0..2, A suffix 0..2, B suffix longer by 1..2; every order of wire deliveries, fetch completions, internal channel heads, <=2 timer ticks",
         "fifo_worlds": "chain lengths around the fork-id checkpoints (10..25 quick; also 60..110 thorough)",
     });
     rep.rule = "part 1: exhaustive evaluation of the real generate_fork_id / generate_last_shared_ancestor over all ordered chain pairs of a forest of real blocks; part 2: explicit-state BFS over delivery orders between two real FullNodes, state = history deduplicated by digest of both nodes, wires and fetches".into();
     rep.assumptions = vec!["block fetches complete independently and in any order; wire messages per direction are FIFO".into(), "keys and timestamps are fixed, so block hashes (and chance agreements of hash bytes) are the same on every run".into()];
-    let f = match Forest::build(n) {
+    let built = if tier.thorough || replay_file.is_some() { Forest::build(n) } else { Forest::build_sparse(n, &quick_forks) };
+    let f = match built {
         Ok(f) => f,
         Err(e) => {
             rep.machinery(format!("forest: {}", e));
